@@ -18,7 +18,7 @@ pub fn def() -> PropDef {
     PropDef {
         info: PropInfo {
             id: "C10",
-            rule: "histories: new(None | program) followed by 1-30 operations over {set_program(valid | default-invalid | valid-only-under-another-verifier, with new offsets for the fixed-metadata VM), set_verifier(reference-equivalent | accept-all | reject-all | custom 'first immediate must be even'), register_helper (an id may be bound again, to the same or to another function), set_stack_usage_calculator, jit_compile, cranelift_compile, execute, execute_jit, execute_cranelift with one of three packets or - in histories that never load a packet-reading program - the empty packet} on each of the four VM kinds; programs come from a pool of tiny well-defined programs returning distinct values (constants, helper results, a packet byte, the frame size seen by a local function and by a function nested two calls deep (under a stack-usage calculator that depends on its data, on the program and on the pc), the packet length through the fixed VM's offsets). Oracle: abstract VM state machine (loaded program, verifier in force, helpers, what each compiler compiled and under which helpers / calculator, offsets); after EVERY step Ok/Err and the value are compared with the model; after a successful reload compiled code may only be 'not compiled' (Err) or the NEW program's value; a failing set_program / set_verifier must leave every later observation unchanged. Non-trivial = history with a reload after a compile, a failed load on a configured VM, or >= 2 executions; distinct by hash of the history.",
+            rule: "histories: new(None | program) followed by 1-30 operations over {set_program(valid | default-invalid | valid-only-under-another-verifier, with new offsets for the fixed-metadata VM), set_verifier(reference-equivalent | accept-all | reject-all | custom 'first immediate must be even'), register_helper (an id may be bound again, to the same or to another function), set_stack_usage_calculator, jit_compile, cranelift_compile, execute, execute_jit, execute_cranelift with one of three packets or - in histories that never load a packet-reading program - the empty packet} on each of the four VM kinds; programs come from a pool of tiny well-defined programs returning distinct values (constants, helper results, a packet byte, the frame size seen by a local function and by a function nested two calls deep (under a stack-usage calculator that depends on its data, on the program and on the pc), the packet length through the fixed VM's offsets - the program of the largest layout also adds up the spare words of its buffer, which are zero after every load). Oracle: abstract VM state machine (loaded program, verifier in force, helpers, what each compiler compiled and under which helpers / calculator, offsets); after EVERY step Ok/Err and the value are compared with the model; after a successful reload compiled code may only be 'not compiled' (Err) or the NEW program's value; a failing set_program / set_verifier must leave every later observation unchanged. Non-trivial = history with a reload after a compile, a failed load on a configured VM, or >= 2 executions; distinct by hash of the history.",
             assumptions: &["the crate's default verifier is not exported: the 'default' verifier re-installed by set_verifier is the harness's reference verifier (equivalent by C06)", "compilation of programs that the default verifier would reject (loaded under accept-all) is not exercised with Cranelift", "helper ids are always bound to the same function within one history (re-binding an id after a JIT compilation is documented to be unsupported)"],
         },
         run,
@@ -80,17 +80,24 @@ pub fn pool() -> Vec<(PKind, Vec<u8>)> {
     ];
     for (k, (d, e)) in OFFSETS.iter().enumerate() {
         // r0 = *(r1+E) - *(r1+D) + 3000 (+k): the packet length through the configured offsets
-        v.push((
-            PKind::FixedLen(k as u8),
-            asm(&[
-                mov(0, 3000 + 2 * k as i32),
-                Insn::new(ldx_opc(8), 2, 1, *d as i16, 0),
-                Insn::new(ldx_opc(8), 3, 1, *e as i16, 0),
-                Insn::new(alu_opc(true, ALU_ADD, true), 0, 3, 0, 0),
-                Insn::new(alu_opc(true, ALU_SUB, true), 0, 2, 0, 0),
-                exit,
-            ]),
-        ));
+        let mut p = vec![
+            mov(0, 3000 + 2 * k as i32),
+            Insn::new(ldx_opc(8), 2, 1, *d as i16, 0),
+            Insn::new(ldx_opc(8), 3, 1, *e as i16, 0),
+            Insn::new(alu_opc(true, ALU_ADD, true), 0, 3, 0, 0),
+            Insn::new(alu_opc(true, ALU_SUB, true), 0, 2, 0, 0),
+        ];
+        if *d.max(e) >= 40 {
+            // the buffer of this layout has spare words, at the offsets the other layouts keep
+            // their pointers at: they are zero in the buffer a (re)load creates, whatever an
+            // earlier program of this VM object left there
+            for spare in (0..*d.max(e) as i16).step_by(8).filter(|o| *o as usize != *d && *o as usize != *e) {
+                p.push(Insn::new(ldx_opc(8), 4, 1, spare, 0));
+                p.push(Insn::new(alu_opc(true, ALU_ADD, true), 0, 4, 0, 0));
+            }
+        }
+        p.push(exit);
+        v.push((PKind::FixedLen(k as u8), asm(&p)));
     }
     v
 }
